@@ -15,7 +15,7 @@ PROVED = ("MemoryReader model = abstract reader on every op with every 64-bit ar
           "= abstract reader over its window for ANY wrapped stream that is correct on in-bounds calls (so slices are safe even "
           "over a sloppy backend); instances for MemoryReader and FileReader; nesting to any depth by induction; clauses of the "
           "property read off the spec (exact bytes, partial = min, peek keeps position, position <= length, failure is a no-op, "
-          "fails iff out of bounds); size-prefixed reads consume exactly prefix+payload and reject negative/unsatisfiable sizes; ReadNullTerminatedString(maxCount) over the MemoryReader model delivers exactly the NUL-free prefix of the first maxCount bytes ahead of the cursor, consumes the terminator when it met one, never more than maxCount bytes, and is an error (never a short string) when the data ends first — for every content, cursor and maxCount (C12_null_terminated, _found, _maxcount, _runs_out, _fuel_cut); the same loop over ANY reader whose Read(1) refines the abstract reader runs in agreement with it (readNT_sim, readNT_refined), hence over SliceReader<W> for any in-bounds-correct W (C12_null_terminated_slice: result = ntSpec of the window ahead of the slice's cursor, slice stays well-formed over the same window, Position() advanced by exactly the consumed count, window ending first = bounds error, bytes outside the window never looked at), memory slices and file slices written out (C12_null_terminated_memory_slice, _file_slice), the FileReader model (C12_null_terminated_file), file slices nested to any depth (C12_null_terminated_nested), and with the driver's fuel cut on slice backends (C12_null_terminated_slice_fuel_cut); size-prefixed reads over every refining reader — SliceReader<W> of any in-bounds-correct stream, file slices nested to any depth, the MemoryReader model — decide, deliver and advance exactly as over the abstract reader (C12_prefixed_slice, _nested, _memory; simulation readPrefixed_sim); a refused Read / Peek / Seek / slice creation leaves the object exactly as it was on every implementation model (memory, file, file slice, slice of a file slice) from ANY state and for ANY argument (C12_failure_is_noop_every_backend, C12_refused_request_is_noop); L2: guards and cursor updates of MemoryReader (Seek/SeekForward/SeekBackward/ReadImplementation/ReadPartial/Slice) and SliceReader<FileReader> (ReadImplementation/ReadPartial/Seek/SeekForward/SeekBackward/Position) are re-translated from the C++ on every run (Gen/Streams.lean) and proved equal to the models' on all 64-bit values (C12_gen_*)")
+          "fails iff out of bounds); size-prefixed reads consume exactly prefix+payload and reject negative/unsatisfiable sizes; ReadNullTerminatedString(maxCount) over the MemoryReader model delivers exactly the NUL-free prefix of the first maxCount bytes ahead of the cursor, consumes the terminator when it met one, never more than maxCount bytes, and is an error (never a short string) when the data ends first — for every content, cursor and maxCount (C12_null_terminated, _found, _maxcount, _runs_out, _fuel_cut); the same loop over ANY reader whose Read(1) refines the abstract reader runs in agreement with it (readNT_sim, readNT_refined), hence over SliceReader<W> for any in-bounds-correct W (C12_null_terminated_slice: result = ntSpec of the window ahead of the slice's cursor, slice stays well-formed over the same window, Position() advanced by exactly the consumed count, window ending first = bounds error, bytes outside the window never looked at), memory slices and file slices written out (C12_null_terminated_memory_slice, _file_slice), the FileReader model (C12_null_terminated_file), file slices nested to any depth (C12_null_terminated_nested), and with the driver's fuel cut on slice backends (C12_null_terminated_slice_fuel_cut); size-prefixed reads over every refining reader — SliceReader<W> of any in-bounds-correct stream, file slices nested to any depth, the MemoryReader model — decide, deliver and advance exactly as over the abstract reader (C12_prefixed_slice, _nested, _memory; simulation readPrefixed_sim); a refused Read / Peek / Seek / slice creation leaves the object exactly as it was on every implementation model (memory, file, file slice, slice of a file slice) from ANY state and for ANY argument (C12_failure_is_noop_every_backend, C12_refused_request_is_noop); the typed helpers exactly as the run executes them — readNT / readPrefixed over Rd.read of a live object of ANY backend — run as over the abstract reader of what the object exposes (C12_null_terminated_every_backend, C12_prefixed_every_backend; Op2Proofs/SysTyped.lean); L2: guards and cursor updates of MemoryReader (Seek/SeekForward/SeekBackward/ReadImplementation/ReadPartial/Slice) and SliceReader<FileReader> (ReadImplementation/ReadPartial/Seek/SeekForward/SeekBackward/Position) are re-translated from the C++ on every run (Gen/Streams.lean) and proved equal to the models' on all 64-bit values (C12_gen_*)")
 PARTIAL = ("ReadNullTerminatedString is a theorem for every reader model: MemoryReader, FileReader, and every slice (memory slices, file "
            "slices nested to any depth; C12_null_terminated*, side conditions: position <= length < 2^64 resp. the slice invariant "
            "sliceGood); std::ifstream's in-bounds behaviour is trusted base (FileR), exercised by the file-slice groups")
